@@ -369,7 +369,9 @@ func inScope(path []string) bool {
 }
 
 // inExpr: the path lies in a condition body
-func inExpr(path []string) bool { return len(path) >= 3 && path[0] == "conditions" && path[2] == "body" }
+func inExpr(path []string) bool {
+	return len(path) >= 3 && path[0] == "conditions" && path[2] == "body"
+}
 
 func reverseMembers(j J) J {
 	ms, ok := tMembers(j)
